@@ -1,9 +1,37 @@
 import NmVerif.Proto
+import NmVerif.Index.Ufunc
 namespace NmVerif.Driver.C07
 open NmVerif NmVerif.Proto
 
-def handle : Handler := fun op _args =>
+/-- operand shapes from the keys `a`, `b`, `c` (those present, in this order) -/
+def operands (args : Args) : Option (List Shape) := do
+  let a ← args.nats "a"
+  match args.get? "b" with
+  | none => pure [a]
+  | some _ =>
+    let b ← args.nats "b"
+    match args.get? "c" with
+    | none => pure [a, b]
+    | some _ =>
+      let c ← args.nats "c"
+      pure [a, b, c]
+
+/-- the routing plan: for every output element (row-major) the flat id of the element read from each operand -/
+def handle : Handler := fun op a =>
   match op with
+  | "ufunc" => orBad do
+      let ss ← operands a
+      match ufunc (fun (l : List Nat) => l) (ss.map Arr.iota) with
+      | none => pure "nothing"
+      | some u =>
+        match (allIdx u.shape).mapM u.get with
+        | some rows => pure s!"ok shape={fmtNats u.shape} plan={fmtNatLists rows}"
+        | none => pure "ub"
+  | "outer" => orBad do
+      let x ← a.nats "a"
+      let y ← a.nats "b"
+      let u := outer (fun (p q : Nat) => [p, q]) (Arr.iota x) (Arr.iota y)
+      pure s!"ok shape={fmtNats u.shape} plan={fmtNatLists ((allIdx u.shape).map u.get)}"
   | _ => none
 
 end NmVerif.Driver.C07
